@@ -38,10 +38,20 @@ OtherTypes == {<<97,108,112,109>>, <<97,112,107>>, <<98,105,116,98,117,99,107,10
                <<100,111,99,107,101,114>>, <<103,101,110,101,114,105,99>>, <<103,105,116,104,117,98>>, <<103,111>>, <<104,97,99,107,97,103,101>>,
                <<104,101,120>>, <<109,108,102,108,111,119>>, <<111,99,105>>, <<112,117,98>>, <<114,112,109>>, <<115,119,105,102,116>>,
                <<113,112,107,103>>, <<115,119,105,100>>, <<104,117,103,103,105,110,103,102,97,99,101>>, <<108,117,97,114,111,99,107,115>>, <<98,105,116,110,97,109,105>>}
+\* colloquial names of the seven ecosystems and of their tools (none of them is a type name): rubygems, rubygem, gems, ruby, go, gomod, golang.org, go-module, pip, pypi.org, python, py ...
+Aliases == {<<114,117,98,121,103,101,109,115>>, <<114,117,98,121,103,101,109>>, <<103,101,109,115>>, <<114,117,98,121>>, <<103,111>>, 
+            <<103,111,109,111,100>>, <<103,111,108,97,110,103,46,111,114,103>>, <<103,111,45,109,111,100,117,108,101>>, <<112,105,112>>, 
+            <<112,121,112,105,46,111,114,103>>, <<112,121,116,104,111,110>>, <<112,121>>, <<119,104,101,101,108>>, <<101,103,103>>, 
+            <<99,114,97,116,101,115>>, <<99,114,97,116,101,115,46,105,111>>, <<99,114,97,116,101>>, <<114,117,115,116>>, <<109,118,110>>, 
+            <<109,97,118,101,110,50>>, <<109,97,118,101,110,45,99,101,110,116,114,97,108>>, <<103,114,97,100,108,101>>, <<106,97,118,97>>, 
+            <<106,97,114>>, <<110,111,100,101>>, <<110,111,100,101,106,115>>, <<110,112,109,106,115>>, <<121,97,114,110>>, <<106,115>>, 
+            <<100,111,116,110,101,116>>, <<110,117,103,101,116,46,111,114,103>>, <<99,115,104,97,114,112>>, <<110,117,112,107,103>>, 
+            <<99,97,114,103,111,46,105,111>>, <<99,111,109,112,111,115,101,114>>, <<112,97,99,107,97,103,105,115,116>>, <<103,101,109,50>>, 
+            <<110,112,109,50>>, <<112,121,112,105,51>>}
 LookupUniverse ==
    UNION {CaseVariants(n) : n \in TypeNames}
    \cup UNION {Edits(n) : n \in TypeNames}
-   \cup OtherTypes \cup {<<>>, <<32>>}
+   \cup OtherTypes \cup Aliases \cup {<<>>, <<32>>}
    \cup {<<32>> \o n : n \in TypeNames} \cup {n \o <<32>> : n \in TypeNames} \cup {n \o n : n \in TypeNames}
 
 VARIABLES w, t, done
